@@ -305,6 +305,7 @@ func checkC04(w *World, r *Report) {
 	checkParseGetsTheSource(w, r, "R04.13")
 	checkWritersWriteEverything(w, r)
 	checkStagedOutputDelivered(w, r)
+	checkTextNodesKeepTheirText(w, r)
 }
 
 func onlyDebugRefs(v ssa.Value) bool {
@@ -1357,4 +1358,82 @@ func yieldsNodes(w *World, f *types.Func) bool {
 		}
 	}
 	return false
+}
+
+// checkTextNodesKeepTheirText — R04.16: literal text is stored as it was cut out of the source.  In
+// every function that makes a TextNode from a string it is handed, the string that ends up in the
+// node's content (stored directly, or handed to another such function) is that parameter itself
+// on every path — no decoder, trimmer or replacer stands between the tokenizer's text and the
+// node.  (Whitespace control acts on tokens, before nodes are made.)
+func checkTextNodesKeepTheirText(w *World, r *Report) {
+	makers := map[*ssa.Function]bool{}
+	for _, fn := range w.pkgFuncs() {
+		if fn.Signature.Results().Len() != 1 || !isNamed(fn.Signature.Results().At(0).Type(), twigPath, "TextNode") {
+			continue
+		}
+		for _, p := range fn.Params {
+			if b, ok := p.Type().Underlying().(*types.Basic); ok && b.Kind() == types.String {
+				makers[fn] = true
+			}
+		}
+	}
+	asGiven := func(v ssa.Value) bool {
+		ok := true
+		seen := map[ssa.Value]bool{}
+		var walk func(v ssa.Value, d int)
+		walk = func(v ssa.Value, d int) {
+			v = unspill(v)
+			if v == nil || seen[v] || d > 6 {
+				return
+			}
+			seen[v] = true
+			switch x := v.(type) {
+			case *ssa.Parameter, *ssa.Const:
+			case *ssa.Phi:
+				for _, e := range x.Edges {
+					walk(e, d+1)
+				}
+			default:
+				ok = false
+			}
+		}
+		walk(v, 0)
+		return ok
+	}
+	n := 0
+	var fns []*ssa.Function
+	for fn := range makers {
+		fns = append(fns, fn)
+	}
+	sort.Slice(fns, func(i, j int) bool { return fns[i].Name() < fns[j].Name() })
+	for _, fn := range fns {
+		instrsOf(fn, func(in ssa.Instruction) {
+			var val ssa.Value
+			switch x := in.(type) {
+			case *ssa.Store:
+				if _, ok := fieldAddr(x.Addr, "TextNode", "content"); ok {
+					val = x.Val
+				}
+			case *ssa.Call:
+				if g := x.Call.StaticCallee(); g != nil && makers[g] {
+					for _, a := range x.Call.Args {
+						if b, ok := a.Type().Underlying().(*types.Basic); ok && b.Kind() == types.String {
+							val = a
+						}
+					}
+				}
+			}
+			if val == nil {
+				return
+			}
+			n++
+			construct := "text handed to a TextNode is the text received"
+			if asGiven(val) {
+				r.ok("R04.16", ssaName(fn), construct, w.posOf(in.Pos()), "the parameter itself on every path", false)
+			} else {
+				r.bad("R04.16", ssaName(fn), construct, w.posOf(in.Pos()), "the text put into the node is computed from the text received ("+describe(unspill(val))+"): literal text between tags is rewritten on its way into the tree, so some character sequences of the source do not come out as written")
+			}
+		})
+	}
+	r.floor("texts stored by TextNode makers", n, 2)
 }
